@@ -172,6 +172,10 @@ func sortID(s string) string {
 func Fld(base T, fid int) T { return app("Ref", "rfld", base, IntLit(int64(fid))) }
 func Idx(arr, i T) T        { return app("Ref", "ridx", arr, i) }
 
+// Elem is the address of element i of slice s (an uninterpreted name for
+// ridx(sarr s, soff s + i) so that quantifier patterns can match on it).
+func Elem(s, i T) T { return app("Ref", "selem", s, i) }
+
 func MkSlice(arr, off, ln, cp T) T { return app("Slice", "mkslice", arr, off, ln, cp) }
 func SArr(s T) T                   { return app("Ref", "sarr", s) }
 func SOff(s T) T                   { return app("Int", "soff", s) }
